@@ -201,6 +201,24 @@ def gen_across(rng):
         st = dict(a="frame", pix=[[v] * w for _ in range(h)], ffcAge=age)
         st["pix2"] = [[(v if v2 is None else v2)] * w for _ in range(h)]
         return st
+    if dyn and rng.random() < 0.7:
+        # dynamic threshold: one past colder, one past warmer than the present scene P; afterwards pixels move just
+        # below P, which is visible or not depending on a threshold / background that must not remember the past
+        P = c["T"] + 600
+        c["Preview"] = rng.choice([0, 1, 2])
+        d = c["Delta"] + 10
+        for i in range(max(npre, c["Preview"] + 2)):
+            steps.append(fr(P - 300, 60000, P + 300))
+        for i in range(nper):
+            steps.append(fr(P, rng.choice([0, 2000, 9999])))
+        for i in range(npost + 3):
+            st = fr(P, 60000 if i else rng.choice([10001, 60000]))
+            if i >= 1 and i % 2 == 1:
+                for (y, x) in rng.sample(interior(w, h, e), max(1, len(interior(w, h, e)) // 2)):
+                    st["pix"][y][x] = P - d
+                    st["pix2"][y][x] = P - d
+            steps.append(st)
+        return dict(cfg=c, kind="history", steps=steps)
     for i in range(npre):
         steps.append(fr(L, 60000, L2))
     if use_reset:
